@@ -86,6 +86,45 @@ def cell_program(ty, path, v, via_var):
             % ((" " + structs) if structs else "", (" " + globs) if globs else "", funcs + " " if funcs else "", pre, body))
 
 
+def indirect_store_cases():
+    """store paths the reference semantics does not have (pointers, reference parameters, self, struct-array elements, array
+    parameters): in-range values are stored and read back, out-of-range values stop the program with an error before anything
+    is printed; the oracle is the documented range of the type"""
+    cases = []
+    TY = {"tiny": (-128, 127), "short": (-32768, 32767), "int": (-2**31, 2**31 - 1), "unsigned tiny": (0, 255), "unsigned short": (0, 65535)}
+    for ty, (lo, hi) in TY.items():
+        tn = ty.replace(" ", "_")
+        pre = ("struct S_%s { int pad; %s m; %s[2] arr; };\ninterface I_%s { void put(long v); }\nimpl I_%s for S_%s {\n    void put(long v) { self.m = v; }\n}\n"
+               "void rset(%s& r, long v) { r = v; }\nvoid aset(%s[2] q, long v) { q[1] = v; }\nvoid pset(%s* p, long v) { *p = v; }\n" % (tn, ty, ty, tn, tn, tn, ty, ty, ty))
+        vals = [hi, hi + 1, lo] + ([lo - 1] if lo < 0 else [])
+        for v in vals:
+            ok = lo <= v <= hi
+            for name, body, show in [
+                ("ptr", "    %s x = 0;\n    %s* p = &x;\n    *p = %d;\n" % (ty, ty, v), "x"),
+                ("ptrparam", "    %s x = 0;\n    pset(&x, %d);\n" % (ty, v), "x"),
+                ("ref", "    %s x = 0;\n    rset(x, %d);\n" % (ty, v), "x"),
+                ("self", "    S_%s s;\n    s.m = 0;\n    s.put(%d);\n" % (tn, v), "s.m"),
+                ("arrow", "    S_%s s;\n    s.m = 0;\n    S_%s* q = &s;\n    q->m = %d;\n" % (tn, tn, v), "s.m"),
+                ("structarr", "    S_%s[2] oa;\n    oa[1].m = %d;\n" % (tn, v), "oa[1].m"),
+                ("memberarr", "    S_%s s;\n    s.arr[1] = %d;\n" % (tn, v), "s.arr[1]"),
+                ("arrparam", "    %s[2] a = [0, 0];\n    aset(a, %d);\n" % (ty, v), "a[1]"),
+                ("member-incr", "    S_%s s;\n    s.m = %d;\n    s.m++;\n" % (tn, v - 1 if lo <= v - 1 <= hi else lo), "s.m"),
+            ]:
+                if name == "member-incr" and not (lo <= v - 1 <= hi):
+                    continue
+                prog = pre + "int main() {\n" + body + "    println(%s);\n    println(\"END\");\n    return 0;\n}\n" % show
+                if ok:
+                    cases.append({"id": "%s-%s-%d" % (tn, name, v), "program": prog, "expect_class": "ok", "expect_stdout": "%d\nEND\n" % v})
+                elif lo == 0 and v < 0:
+                    cases.append({"id": "%s-%s-%d" % (tn, name, v), "program": prog, "expect_class": "ok", "expect_stdout": "0\nEND\n"})
+                else:
+                    cs_ = {"id": "%s-%s-%d" % (tn, name, v), "program": prog, "expect_class": "error", "expect_stdout": ""}
+                    if name in ("ptr", "ptrparam", "ref", "self", "arrow", "structarr"):
+                        cs_["finding"] = "indirect_stores_not_range_checked"
+                    cases.append(cs_)
+    return cases
+
+
 def main(a):
     c = RefCheck(PID, a, ["CbGen", "CbProofs", "CbProps.C04", "CbOblig.C04"], THEOREMS, translators=["ranges"])
     if not c.build():
@@ -141,6 +180,7 @@ def main(a):
                 tern.append("(prog (structs) (globals) (funcs (func main int (params) ((decl - %s x (lit 0)) (decl - int c (lit %d)) "
                             "(assign (var x) (tern (var c) %s %s)) (print (e (var x))) (print (s \"END\")) (ret (lit 0))))))" % (ty, cond, a_, b_))
     c.suite("ternary-assignment", tern, nontrivial=lambda r: hash(r.sexp), max_report=4, shrink=False)
+    c.raw_suite("indirect-stores", indirect_store_cases(), max_report=8)
     n = 500 if quick else 50000
     rnd = [gen_core.gen_program(a.seed, 41, k, c.gates, size=25, features={"narrow": True})[0] for k in range(n)]
     c.suite("random-narrow", rnd, nontrivial=lambda r: hash(r.sexp) if r.status == "exit1:range" else None)
